@@ -308,3 +308,47 @@ func equalitiesOf(cond ast.Expr, truth bool) []*ast.BinaryExpr {
 	walk(cond, truth)
 	return out
 }
+
+// forwardingCall recognises a method body that forwards to one package-level function: an optional prefix of local
+// definitions that only read the receiver's fields (`q, mrc := s.Modulus, s.MRedConstant`) followed by the call. It
+// returns the call and its arguments with those locals replaced by the field expressions they stand for.
+func forwardingCall(info *types.Info, fd *ast.FuncDecl) (*ast.CallExpr, []ast.Expr) {
+	if fd.Body == nil || len(fd.Body.List) == 0 {
+		return nil, nil
+	}
+	subst := map[types.Object]ast.Expr{}
+	for _, st := range fd.Body.List[:len(fd.Body.List)-1] {
+		as, ok := st.(*ast.AssignStmt)
+		if !ok || as.Tok != token.DEFINE || len(as.Lhs) != len(as.Rhs) {
+			return nil, nil
+		}
+		for i, l := range as.Lhs {
+			id, ok := l.(*ast.Ident)
+			if !ok {
+				return nil, nil
+			}
+			if _, isSel := unparen(as.Rhs[i]).(*ast.SelectorExpr); !isSel {
+				return nil, nil
+			}
+			subst[info.Defs[id]] = as.Rhs[i]
+		}
+	}
+	es, ok := fd.Body.List[len(fd.Body.List)-1].(*ast.ExprStmt)
+	if !ok {
+		return nil, nil
+	}
+	call, ok := es.X.(*ast.CallExpr)
+	if !ok {
+		return nil, nil
+	}
+	args := make([]ast.Expr, len(call.Args))
+	for i, a := range call.Args {
+		args[i] = a
+		if id, ok := unparen(a).(*ast.Ident); ok {
+			if r, ok := subst[info.Uses[id]]; ok {
+				args[i] = r
+			}
+		}
+	}
+	return call, args
+}
